@@ -951,6 +951,11 @@ func (p *termProfile) checkEvictionTask(t *Task) {
 			if g, ok := t.Notes["lastDeleteGrace"].(*int64); ok {
 				grace = g
 			}
+			// only pods that drain may be removed at all: static pods and pods tolerating the disruption taint stay,
+			// whatever the deadline
+			if ownedBy(pod, "Node") || toleratesDisruption(pod) {
+				s.Violate("C10", "deleted-non-drainable", "pod %s (static=%v, tolerates the disruption taint=%v) was deleted directly by the eviction queue", pod.Name, ownedBy(pod, "Node"), toleratesDisruption(pod))
+			}
 			if grace == nil || *grace < 1 {
 				s.Violate("C10", "zero-grace-delete", "pod %s deleted directly with grace period %v", pod.Name, fmtGrace(grace))
 			}
